@@ -758,7 +758,7 @@ func deep(v interface{}) interface{} {
 // ---- CAS read faults and alternate sources ---------------------------------------------------------------------------
 
 func TestCASReadFaults(t *testing.T) {
-	ev.Rule(chkFault, "rapid: a valid file set where the primary read of a drawn subset of the files fails; with alternate sources (one that cannot be formatted, one that does not hold the file, one that does) the result must equal the fault-free read; without alternate sources the call must fail; non-trivial = every case")
+	ev.Rule(chkFault, "rapid: a valid file set where the primary read of a drawn subset of the files fails; with alternate sources (one that cannot be formatted, one that does not hold the file, one that does) a successful read must return what the fault-free read returns (whether it succeeds is recorded, the statement allows a failure); without alternate sources the call must fail; non-trivial = every case")
 	ev.Rapid(t, chkFault, 300, 3000, func(t *rapid.T) {
 		fs := buildSet(t)
 		var addrs []string
@@ -774,12 +774,14 @@ func TestCASReadFaults(t *testing.T) {
 		base.MustAccept = true
 		_, _, want := evalCase(base)
 		withAlt := fs.toCase(fmt.Sprintf("primary read of %d file(s) fails, alternate source holds them", len(addrs)))
-		withAlt.FailRead, withAlt.Alt, withAlt.MustAccept = addrs, true, true
+		// the statement allows a read to fail; what it returns through an alternate source must be what the fault-free
+		// read returns (a failure here is recorded, not judged)
+		withAlt.FailRead, withAlt.Alt = addrs, true
 		k, msg, got := evalCase(withAlt)
-		if k == "" && got != want {
+		if k == "" && got >= 0 && got != want {
 			k, msg = "C14/alternate-source-differs", fmt.Sprintf("read through an alternate source returned %d operations, fault-free read %d", got, want)
 		}
-		ev.Record(chkFault, true, ev.Hash(withAlt.Files, addrs, "alt"), "alternate:true")
+		ev.Record(chkFault, true, ev.Hash(withAlt.Files, addrs, "alt"), "alternate:true", fmt.Sprintf("alternate-read-succeeded:%v", got >= 0))
 		if k != "" {
 			ev.Fail(t, chkFault, k, k, withAlt, "%s", msg)
 		}
